@@ -119,6 +119,7 @@ class EvaluateAhb:
 # ------------------------------------------------------------------------------------ the two tables
 @contract(V + "map_requirement_validation_values", prop=["C13", "C14"])
 class MapValues:
+    runtime_checkable = True
     params = dict(requirement_constraints_are_fulfilled=Opt(Bool()),
                   requirement_indicator=OneOfEnums("ModalMark", "PrefixOperator"), soll_is_required=Bool())
     raises = {"NotImplementedError": "raises_undetermined"}
@@ -137,6 +138,7 @@ class MapValues:
 
 @contract(V + "combine_requirements_of_different_levels", prop=["C13", "C16"])
 class Combine:
+    runtime_checkable = True
     params = dict(parent_level_requirement=Opt(Enum(RVV)), child_level_requirement=Enum(RVV))
     raises = {"ValueError": "raises_bad_parent"}
 
